@@ -1,2 +1,3 @@
 import Driver.Region
 import Driver.Glyph
+import Driver.Matrix
